@@ -83,7 +83,8 @@ theorem closeFrame_single {is : List Node} (h : is ≠ []) (b : Bool) :
     rw [← hr, List.reverse_reverse]
     rfl
 
-theorem mkRep_suffix (c : PrintCfg) (hc : c.openBound = true) (cap : Nat) (k : RepKind) (mn : Nat)
+theorem mkRep_suffix (c : PrintCfg) (hc : c.openBound = true) (hS : c.starTok = .star)
+    (hP : c.plusTok = .plus) (hQ : c.optTok = .quest) (cap : Nat) (k : RepKind) (mn : Nat)
     (mx : Option Nat) (x : Node) (h : kindOk cap k mn mx = true) :
     mkRep cap (suffixTok c k mn mx) x = some (.rep "" k x mn mx) := by
   cases k <;> cases mx <;> simp [kindOk] at h
@@ -95,13 +96,14 @@ theorem mkRep_suffix (c : PrintCfg) (hc : c.openBound = true) (cap : Nat) (k : R
     by_cases hm : mn = m
     · subst hm; simp [mkRep, h]
     · simp [hm, mkRep, h]
-  · simp [suffixTok, mkRep, h]
-  · simp [suffixTok, mkRep, h]
-  · simp [suffixTok, mkRep, h]
+  · simp [suffixTok, mkRep, h, hS]
+  · simp [suffixTok, mkRep, h, hP]
+  · simp [suffixTok, mkRep, h, hQ]
 
-theorem suffix_isPostfix (c : PrintCfg) (k : RepKind) (mn : Nat) (mx : Option Nat) :
+theorem suffix_isPostfix (c : PrintCfg) (hS : c.starTok = .star) (hP : c.plusTok = .plus)
+    (hQ : c.optTok = .quest) (k : RepKind) (mn : Nat) (mx : Option Nat) :
     (suffixTok c k mn mx).isPostfix = true := by
-  cases k <;> cases mx <;> simp only [suffixTok] <;> (try split) <;> (try split) <;> rfl
+  cases k <;> cases mx <;> simp only [suffixTok, hS, hP, hQ] <;> (try split) <;> (try split) <;> rfl
 
 /-- a postfix token applied when the latest operator is a bare symbol -/
 theorem step_postfix (cap : Nat) (t : PTok) (ht : t.isPostfix = true) (f : Frame) (st : List Frame)
@@ -123,7 +125,8 @@ theorem run_print (c : PrintCfg) (hc : c.Sound) (cap : Nat) : ∀ n : Node, wf c
       cases s <;> simp [printedRecipient]
     simp [print, run, step, Frame.add, Frame.push, items, symOf, this]
   | .alt id ns, h, f, st => by
-    obtain ⟨hA, _, _, _, _⟩ := hc
+    have hc' := hc
+    obtain ⟨hA, _⟩ := hc
     simp only [wf, Bool.and_eq_true, Bool.not_eq_true', List.isEmpty_eq_false_iff] at h
     obtain ⟨hne, hw⟩ := h
     cases ns with
@@ -132,15 +135,13 @@ theorem run_print (c : PrintCfg) (hc : c.Sound) (cap : Nat) : ∀ n : Node, wf c
       simp only [wfL, Bool.and_eq_true] at hw
       simp only [print, hA, if_true, printAlts, run, step]
       -- first branch
-      have h1 := run_print c ⟨hA, by assumption, by assumption, by assumption, by assumption⟩ cap n hw.1
-        Frame.empty (f :: st)
+      have h1 := run_print c hc' cap n hw.1 Frame.empty (f :: st)
       rw [List.append_assoc, run_append_of cap h1]
       have hne1 : (Frame.empty.add (items n) (symOf Frame.empty.sym n)).items ≠ [] := by
         simp only [Frame.add, Frame.empty, List.append_nil]
         intro he
         exact items_ne_nil cap n hw.1 (List.reverse_eq_nil_iff.1 he)
-      obtain ⟨g, hg, hgne, hgb⟩ := run_printAltsTail c
-        ⟨hA, by assumption, by assumption, by assumption, by assumption⟩ cap ns hw.2 _ (f :: st) hne1
+      obtain ⟨g, hg, hgne, hgb⟩ := run_printAltsTail c hc' cap ns hw.2 _ (f :: st) hne1
       rw [run_append_of cap hg]
       have hcl : closeFrame g = some (mkAlt (normL (n :: ns))) := by
         simp only [closeFrame]
@@ -159,11 +160,11 @@ theorem run_print (c : PrintCfg) (hc : c.Sound) (cap : Nat) : ∀ n : Node, wf c
     exact run_printCat c hc cap ns h.2 f st
   | .rep id k n mn mx, h, f, st => by
     have hc' := hc
-    obtain ⟨hA, hC, hR, hAl, hO⟩ := hc
+    obtain ⟨hA, hC, hR, hAl, hO, hS, hP, hQ⟩ := hc
     simp only [wf, Bool.and_eq_true] at h
     obtain ⟨hw, hk⟩ := h
-    have hsuf := mkRep_suffix c hO cap k mn mx (norm n) hk
-    have hpost := suffix_isPostfix c k mn mx
+    have hsuf := mkRep_suffix c hO hS hP hQ cap k mn mx (norm n) hk
+    have hpost := suffix_isPostfix c hS hP hQ k mn mx
     simp only [print, items, symOf]
     -- the operand leaves `norm n` as the latest operator, as a bare symbol
     have hop : run cap (f, st) (if needsParen c n then .lp :: (print c n ++ [.rp]) else print c n)
@@ -361,10 +362,10 @@ theorem postfixOk_print (c : PrintCfg) (hc : c.Sound) : ∀ (n : Node) (p : Opti
   | .cat _ ns, p => by
     simp only [print]; exact postfixOk_printCat c hc ns p
   | .rep _ k n mn mx, p => by
-    obtain ⟨hA, hC, hR, hAl, hO⟩ := hc
-    have hc : c.Sound := ⟨hA, hC, hR, hAl, hO⟩
+    have hc' := hc
+    obtain ⟨hA, hC, hR, hAl, hO, hS, hP, hQ⟩ := hc
     simp only [print]
-    have ih := postfixOk_print c hc n
+    have ih := postfixOk_print c hc' n
     by_cases hp : needsParen c n = true
     · simp only [hp, if_true]
       refine postfixOk_snoc _ p .rp _ ?_ (getLast?_paren _) rfl
